@@ -195,7 +195,7 @@ def _api(ctx, m, rule='C17.D2', only=None):
 
 def _timezone_name(ctx, m, rule='C17.D3'):
     try:
-        fn = m.func('zoneinfo', 'timezone_name')
+        fn = m.func('zoneinfo', 'timezone_name', 'flat')
     except AnalysisError as e:
         ctx.error(rule, str(e))
         return
